@@ -68,6 +68,11 @@ func removePath(path string, args []string) bool {
 		if withoutCurrentDir == escapeAttrPattern(arg) || withoutCurrentDir == escapeGlobCharacters(arg) {
 			return true
 		}
+		// An escaped name can begin with `.\` without naming the current
+		// directory: `.?.dat` is written as `.\?.dat`.
+		if path == escapeAttrPattern(t) || path == escapeGlobCharacters(t) {
+			return true
+		}
 	}
 
 	return false
